@@ -25,3 +25,95 @@ every generated proof file starts with `py_setup`. -/
 macro "py_setup" : command => `(attribute [local irreducible] Py.upper Py.lower Py.strip Py.lstrip Py.rstrip
   Py.stripChars Py.lstripChars Py.rstripChars Py.isdigit Py.isalpha Py.isalnum Py.isspace Py.intOf Py.intOfBase
   Py.strOfInt Py.fmtD Py.fmtX Py.cleanP Py.cm)
+
+macro "py_vc1" : tactic => `(tactic| (first
+  | done
+  | assumption
+  | (simp_all (config := {decide := false}) [slice_length, isDigitsB_iff]; done)
+  | (simp_all (config := {decide := false}) [slice_length, isDigitsB_iff]; omega)
+  | grind))
+
+namespace Py
+@[grind →] theorem mem_zip_fst' {α β : Type} {a : α × β} {l1 : List α} {l2 : List β} (h : a ∈ l1.zip l2) : a.1 ∈ l1 :=
+  (List.of_mem_zip (a := a.1) (b := a.2) (by simpa using h)).1
+@[grind →] theorem mem_zip_snd' {α β : Type} {a : α × β} {l1 : List α} {l2 : List β} (h : a ∈ l1.zip l2) : a.2 ∈ l2 :=
+  (List.of_mem_zip (a := a.1) (b := a.2) (by simpa using h)).2
+@[grind →] theorem mem_of_mem_reverse' {α : Type} {a : α} {l : List α} (h : a ∈ l.reverse) : a ∈ l := List.mem_reverse.mp h
+end Py
+
+/-- closes the verification conditions `mvcgen` leaves for translated code: index bounds, digit-string
+preconditions of `int()`, alphabet membership for `index()`, non-zero divisors -/
+macro "py_vc2" : tactic => `(tactic| (first
+  | done
+  | assumption
+  | (simp only [List.length_cons, List.length_nil, Int.natCast_add, Int.cast_ofNat_Int] at *; omega)
+  | (simp (config := {decide := false}) at *; omega)
+  | (grind [isDigitsB_iff, IsDigits, AllIn, slice_length])
+  | (simp_all (config := {decide := false}) [isDigitsB_iff, IsDigits, slice_length]; done)))
+
+namespace Py
+/-- `int(s[a:b])`-style obligation from the digit gate on `s` and length facts -/
+theorem isDigits_slice_le {s : Str} {a b : Option Int} (h : AllIn isAsciiDigit s)
+    (hne : loIdx s.length a < hiIdx s.length b) (hlen : hiIdx s.length b - loIdx s.length a ≤ 4300) :
+    IsDigits (slice s a b) ∧ (slice s a b).length ≤ 4300 :=
+  ⟨IsDigits.slice h hne, by rw [slice_length]; exact hlen⟩
+
+theorem isDigits_of_B {s : Str} (h : isDigitsB s = true) : IsDigits s := (isDigitsB_iff s).mp h
+theorem allIn_of_B {s : Str} (h : isDigitsB s = true) : AllIn isAsciiDigit s := ((isDigitsB_iff s).mp h).2
+theorem ne_nil_of_B {s : Str} (h : isDigitsB s = true) : 0 < s.length := ((isDigitsB_iff s).mp h).length_pos
+
+theorem mem_of_eq_append_cons {α : Type} {l p s : List α} {c : α} (h : l = p ++ c :: s) : c ∈ l := by
+  subst h; simp
+
+theorem contains_digits_of_isAsciiDigit {c : Nat} (h : isAsciiDigit c = true) :
+    ([48, 49, 50, 51, 52, 53, 54, 55, 56, 57] : Str).contains c = true := by
+  have := isAsciiDigit_iff.mp h
+  simp only [List.contains_cons, List.contains_nil, Bool.or_false, Bool.or_eq_true, beq_iff_eq]
+  omega
+end Py
+
+namespace Py
+theorem allAlnum_of_digits {s : Str} (h : AllIn isAsciiDigit s) : AllIn isAsciiAlnum s := by
+  intro c hc; have := h c hc; simp only [isAsciiAlnum, this, Bool.true_or]
+
+/-- re-cleaning an accepted digit string is the identity (delete set without alphanumerics) -/
+theorem cleanP_digits {s d : Str} (h : AllIn isAsciiDigit s) (hd : d.all (fun c => !isAsciiAlnum c) = true) :
+    cleanP s d = s :=
+  cleanP_of_alnum (allAlnum_of_digits h) (by
+    intro c hc
+    have := (List.all_eq_true.mp hd) c hc
+    cases hx : isAsciiAlnum c
+    · rfl
+    · rw [hx] at this; cases this)
+end Py
+
+/-- once a digit gate `isDigitsB s = true` is known, `compact`-style re-processing of `s` is the identity:
+rewrite `cleanP s d`, `upper s`, `strip s` to `s` -/
+macro "py_digits" : tactic => `(tactic|
+  (try (have hdg__ := Py.allIn_of_B ‹isDigitsB _ = true›
+        try simp only [Py.cleanP_digits hdg__ (by decide), Py.upper_of_asciiDigits hdg__, Py.strip_eq_self_of_asciiDigit _ hdg__] at *)))
+
+/-- normalise the Boolean path conditions `mvcgen` records (`¬(!b) = true`, `b = isDigitsB s`) -/
+macro "py_norm" : tactic => `(tactic|
+  (try simp only [Bool.not_eq_true, Bool.not_eq_eq_eq_not, Bool.not_not, Bool.not_true, Bool.not_false, Bool.not_eq_false,
+     bne_iff_ne, ne_eq, Decidable.not_not, beq_iff_eq, Bool.and_eq_true, Bool.or_eq_true, decide_eq_true_eq,
+     Bool.true_eq, Bool.false_eq] at *))
+
+/-- for-loop cursors: `h : xs = pref ++ cur :: suff` gives `cur ∈ xs` -/
+macro "py_cursor" : tactic => `(tactic|
+  (try (have hcur__ := Py.mem_of_eq_append_cons ‹_ = _ ++ _ :: _›)))
+
+/-- unfold the `let`-bound locals `mvcgen` introduces for reassigned variables -/
+macro "py_zeta" : tactic => `(tactic| (try simp (config := {zetaDelta := true, decide := false}) only [] at *))
+
+macro "py_vc3" : tactic => `(tactic| (py_zeta; py_norm; (try subst_vars); py_norm; py_digits; py_cursor; first
+  | done
+  | assumption
+  | (simp only [List.length_cons, List.length_nil] at *; omega)
+  | (refine Py.isDigits_slice_le (Py.allIn_of_B ‹_›) ?_ ?_ <;> (simp (config := {decide := false}) [loIdx, hiIdx] at * <;> omega))
+  | (simp (config := {decide := false}) at *; omega)
+  | (grind [isDigitsB_iff, IsDigits, AllIn, slice_length, contains_digits_of_isAsciiDigit])
+  | (simp_all (config := {decide := false}) [isDigitsB_iff, IsDigits, slice_length]; done)))
+
+/-- the closing tactic used by the generated contract proofs -/
+macro "py_vc" : tactic => `(tactic| py_vc3)
